@@ -146,6 +146,9 @@ def templates(tier, seed):
     for start, step in (("0.0625", "0.0625"), ("0.0004", "0.0004"), ("-0.03125", "0.015625"), ("1.00048828125", "0.5")):
         for n in (2, 3):
             tds.append(dict(fam="fine-step", body="rectvar", n=n, start=start, step=step))
+    for form in ("count", "start-step", "in-g", "reuse-group"):
+        for n in (2, 3):
+            tds.append(dict(fam="nested-dep", body="rectvar", form=form, n=n))
     for n in (8, 12):
         for test in ("eq($i, 3)", "0", "gt($i, 100)"):
             tds.append(dict(fam="if-in-long-loop", body="rectvar", n=n, test=test))
@@ -247,6 +250,22 @@ def build(td, wrong=False):
             lit = ("%.12f" % float(val)).rstrip("0").rstrip(".")
             assert Fraction(lit) == val
             un += f'<var i="{lit}"/>{body}'
+    elif fam == "nested-dep":
+        # an inner loop whose count / start / step depend on the outer loop variable is evaluated afresh at every entry
+        n, form = td["n"], td["form"]
+        ky = alloc([(3, *V)])
+        if form == "start-step":
+            inner = f'<loop count="2" loop-var="j" start="$i" step="{{{{$i * 10 + 1}}}}"><rect xy="$j [[{ky}]]" wh="1"/></loop>'
+        else:
+            inner = f'<loop count="{{{{$i + 1}}}}" loop-var="j"><rect xy="{{{{$i * 10 + $j}}}} [[{ky}]]" wh="1"/></loop>'
+        if form == "in-g":
+            inner = f"<g>{inner}</g>"
+        if form == "reuse-group":
+            pre = f'<specs><g id="row">{inner}</g></specs>' + pre
+            inner = '<reuse href="#row"/>'
+        body = inner
+        loop = f'<loop count="{n}" loop-var="i">{body}</loop>'
+        un = "".join(f'<var i="{k}"/>{body}' for k in range(n))
     elif fam == "if-in-long-loop":
         # many passes whose <if> is false must not use anything up (nesting depth in particular)
         n, test = td["n"], td["test"]
